@@ -149,6 +149,35 @@ def check_archive(ctx, ms, members, blob, variant, attrs):
     for k in keep:
         if isinstance(k, str) and os.path.exists(k):
             os.unlink(k)
+    # other ways to go through an archive: iterating it (members are parsed lazily), two archives on one shared raw handle
+    # stepped in turn (every access positions the handle first, as the standard reader does)
+    from harness.vfile import VirtualFile
+    want_names = _want_names(members)
+    want_data = [None if m["dir"] else m["data"] for m in members]
+    try:
+        it_names = [g.name for g in vmtar.open(fileobj=io.BytesIO(blob))]
+        raw = VirtualFile(len(blob), [(0, len(blob), "bytes", blob)])
+        t1 = vmtar.open(fileobj=raw)
+        raw.seek(0)          # (an archive starts where the handle stands when it is opened)
+        t2 = vmtar.open(fileobj=raw)
+        n1, n2, d1, d2 = [], [], [], []
+        while True:
+            a, b_ = t1.next(), t2.next()
+            if a is None and b_ is None:
+                break
+            for tt, x, nn, dd in ((t1, a, n1, d1), (t2, b_, n2, d2)):
+                if x is not None:
+                    nn.append(x.name)
+                    dd.append(None if x.isdir() else tt.extractfile(x).read())
+    except Exception as e:  # noqa: BLE001
+        ctx.violation({**attrs, "fail": "open-raised", "mode": "iteration", "exc": type(e).__name__}, {**det, "error": repr(e)[:300]})
+        return False
+    if it_names != want_names or n1 != want_names or n2 != want_names:
+        ctx.violation({**attrs, "fail": "listing", "mode": "iteration" if it_names != want_names else "shared-raw-handle"}, {**det, "want": want_names, "got": [it_names, n1, n2]})
+        return False
+    if d1 != want_data or d2 != want_data:
+        ctx.violation({**attrs, "fail": "extract-mismatch", "mode": "shared-raw-handle"}, {**det, "want_len": [len(x) if x else x for x in want_data]})
+        return False
     # an ordinary tar archive behind other bytes in the same file, handed over as a file object positioned at its start, is
     # read from there (as the standard reader does).  Not done for gzip wrapping: the standard GzipFile rewinds the
     # underlying file to offset 0 on a backward seek, whoever calls it.
@@ -199,6 +228,39 @@ VARIANTS = [
 ]
 NAME_POOL = [b"usr/lib/vmware/hypervisor/vmx%d.bin", b"etc/visor%d.conf", b"visor  %d", b"ustar%d", b"ustar  %d", b"caf\xe9-%d.bin", b"\xff\xfe%d", b"na\xc3\xafve %d.txt",
              b"visor%d/visor  /ustar", b"%d visor  "]
+
+
+def gnu_sparse(ctx):
+    """An ordinary tar with an old-style GNU sparse member (type 'S': four (offset, length) pairs in the header, real size behind
+    them): listed and extracted exactly as by the standard reader, holes expanded."""
+    from dissect.hypervisor.util import vmtar
+    chunks = [(512, 700), (4096, 512), (9000, 24)]
+    real = 10000
+    packed = b"".join(bytes([65 + k]) * ln for k, (_, ln) in enumerate(chunks))
+    h = bytearray(enc_vmtar.header("sparse.bin", len(packed), typeflag=b"S"))
+    h[257:265] = b"ustar  \0"       # GNU magic
+    pos = 386
+    for off, ln in chunks + [(0, 0)]:
+        h[pos:pos + 24] = ("%011o\0%011o\0" % (off, ln)).encode()
+        pos += 24
+    h[482] = 0
+    h[483:495] = ("%011o\0" % real).encode()
+    h[148:156] = b" " * 8
+    h[148:156] = ("%06o" % sum(h)).encode() + b"\0 "
+    blob = bytes(h) + packed + bytes(-len(packed) % 512) + enc_vmtar.header("after.txt", 5) + b"after".ljust(512, b"\0") + bytes(1024)
+    ctx.case(key="gnu-sparse", nontrivial=True)
+    try:
+        std = tarfile.open(fileobj=io.BytesIO(blob))
+        a = [(m.name, m.size, std.extractfile(m).read()) for m in std.getmembers()]
+        v = vmtar.open(fileobj=io.BytesIO(blob))
+        b = [(m.name, m.size, v.extractfile(m).read()) for m in v.getmembers()]
+    except Exception as e:  # noqa: BLE001
+        ctx.violation({"variant": "gnu-sparse", "fail": "raised", "exc": type(e).__name__}, {"error": repr(e)[:300]})
+        return
+    if len(a) != 2 or len(a[0][2]) != real:
+        raise core.MachineryError(f"the standard reader does not see the sparse member as intended: {[(x[0], x[1], len(x[2])) for x in a]}")
+    if a != b:
+        ctx.violation({"variant": "gnu-sparse", "fail": "standard-disagrees"}, {"std": [(x[0], x[1], len(x[2])) for x in a], "vmtar": [(x[0], x[1], len(x[2])) for x in b]})
 
 
 def huge_offsets(ctx):
@@ -275,6 +337,7 @@ def run(ctx):
     core.parallel(ctx, work, sts)
     sample_roundtrip(ctx)
     huge_offsets(ctx)
+    gnu_sparse(ctx)
     random_archives(ctx, random.Random(ctx.seed + 2020), 300 if thorough else 60)
 
 
